@@ -227,6 +227,26 @@ def main(argv=None):
             broken.append((b["name"], b.get("what")))
             lines.append(f"CHECKER-ERROR bounded {b['name']}: {b.get('what')}")
 
+    # modular soundness guard: a summary may only assume obligations that were discharged in this run
+    used = set()
+    for r in results:
+        used.update(r.get("summaries_used", []))
+    proved_names = {}
+    for r in results:
+        for o in r["obligations"]:
+            if o["status"] == "proved":
+                proved_names.setdefault(r["contract"], set()).add(o["name"])
+    failed_contracts = {r["contract"] for r in results if r["status"] != "ok"}
+    summaries_report = []
+    for sm in PR.SUMMARIES.values():
+        if sm.target not in used:
+            continue
+        missing_facts = [a for a in sm.assumes if a not in proved_names.get(sm.proved_by, set())]
+        ok = not missing_facts and sm.proved_by not in failed_contracts
+        summaries_report.append({"callee": sm.target, "proved_by": sm.proved_by, "assumed_facts": sm.assumes, "all_discharged_in_this_run": ok})
+        if not ok and not args.only:
+            broken.append((sm.target, f"summary assumes facts not discharged by {sm.proved_by}: {missing_facts or 'contract failed'}"))
+            lines.append(f"CHECKER-ERROR summary of {sm.target}: facts {missing_facts} not discharged by contract {sm.proved_by}")
     for lv in libval:
         if lv["status"] != "agrees":
             broken.append((lv["contract"], "assumed library contract disagrees with the library: " + str(lv.get("detail"))))
@@ -259,6 +279,7 @@ def main(argv=None):
                         "path_feasibility_unknown": feas_unknown},
             "encoder_crosscheck": {"native_runs_agreeing_with_proved_contracts": cross},
             "lib_contract_validation": libval,
+            "callee_contracts_used_at_call_sites": summaries_report,
             "bounded_standins": [{k: v for k, v in b.items() if k != "witness"} for b in bounded],
             "known_findings_reported": sorted({k["id"] for k, _, _ in known_hits}),
             "undecided": [f"{c} :: {o['name']}" for c, o in undecided],
